@@ -334,7 +334,7 @@ PROPS["C02"] = {
     "timeout": 600,
     "technique": "function contracts on the translator: per-line postcondition (emitted items == documented encoding, address counter advances by the emitted bytes, label table/limits frame), label definition and late substitution; Kani/CBMC over symbolic instructions of every variant and operand shape",
     "level_text": "Proof (partial, see note) per source line: for each one-byte instruction variant, each jump/call (label item and the relative-offset closure target-(address+2) mod 256), DEC with all five operand shapes, .ORG forward, .BYTE n, *STACKSIZE and *PROGRAMSIZE, with symbolic registers/constants and a symbolic address counter, the real push_instruction emits exactly the documented encoding, advances the counter by the emitted length and leaves label table and limits alone; the two-byte vector builders are proved against the reference for: compile_instruction_mov with destination R or (R+) and EVERY source shape (register, (R), (R+), ((R+)), constant, label, (address), (label)), destination ((R+)) with all but one, destinations (R), (address), (label) with the register-based sources; from_bases_dst_and_src (CMP/BITT/BITS/BITC) for all six destination shapes with sources R, (R+), ((R+)); from_bases_and_src (LDSP/LDFR) for every source shape but a numeric constant; the mode/register field functions for every shape.",
-    "level_note": "Trusted: Kani/CBMC, rustc, enc_ref (my transcription of the documented encoding = dispatch layout of the control store), kani::stub(RandomState::new -> fixed keys); label texts are fixed strings (parametricity). NOT DECIDED (verifier runs out of memory on heap-string clones behind references / hash-map probing / iterator adapters): the remaining operand-shape pairs of the two-byte builders (mostly CMP/BITx with a constant, label, absolute or (R) source; their mode/register fields ARE proved), push_instruction's dispatch of the two-byte instructions to those builders, .DB/.DW data bytes, label definition + late substitution in finish (case-insensitive lookup), and the whole-image concatenation; these parts of the statement are not claimed. BOUNDED: .ORG/.BYTE fill <= 5.",
+    "level_note": "Trusted: Kani/CBMC, rustc, enc_ref (my transcription of the documented encoding = dispatch layout of the control store), kani::stub(RandomState::new -> fixed keys); label texts are fixed strings (parametricity). NOT DECIDED (verifier runs out of memory on heap-string clones behind references / hash-map probing / iterator adapters): the remaining operand-shape pairs of the two-byte builders (mostly CMP/BITx with a constant, label, absolute or (R) source; their mode/register fields ARE proved), push_instruction's dispatch of MOV/CMP/BITT/BITS/BITC to those builders (LDSP, LD const, ST (R) dispatch IS proved, thorough tier), .DB/.DW data bytes, label definition + late substitution in finish (case-insensitive lookup), and the whole-image concatenation; these parts of the statement are not claimed. BOUNDED: .ORG/.BYTE fill <= 5.",
     "bounded": ["c02_d_org / c02_d_byte: fill lengths <= 5 (unwind 8)"],
     "samples": [{"obligation": "C02.P.push.items-are-documented-encoding", "text": "push_instruction(inst) appends exactly enc_ref(inst, next_addr)", "domain": "every Instruction variant x operand shape x register, symbolic constants and address"}],
     "trusted": ["kani::stub(std::hash::RandomState::new -> fixed keys)"],
